@@ -4,6 +4,7 @@
 // be fed into another one (fit of sampled spline values) without leaving the real code.
 //
 //   new <slot> <lin|cubic|akima> <e0|e1|e2|i0|i1|i2>   e = setBC(enum), i = setBCInt(int)
+//   bc <slot> <e0|e1|e2|i0|i1|i2>                      setBC / setBCInt on an EXISTING object (call histories)
 //   interp <slot> <n> x1..xn y1..yn                    Spline::Interpolate
 //   grid <slot> <min> <max> <h>                        Spline::GenerateGrid -> "grid n r0.."
 //   setgrid <slot> <n> r1..rn                          getX() = r (non-uniform fit grids)
@@ -85,6 +86,16 @@ int main() {
           s->setBCInt(b);
         }
         slots[slot] = std::move(s);
+        std::cout << "ok" << std::endl;
+      } else if (cmd == "bc") {
+        std::string slot, bc;
+        in >> slot >> bc;
+        int b = bc.at(1) - '0';
+        if (bc[0] == 'e') {
+          get(slot).setBC(static_cast<Spline::eBoundary>(b));
+        } else {
+          get(slot).setBCInt(b);
+        }
         std::cout << "ok" << std::endl;
       } else if (cmd == "interp" || cmd == "fit") {
         std::string slot;
